@@ -2,3 +2,6 @@ import LianVerif.Model.PathStore
 import LianVerif.Spec.MaxPaths
 import LianVerif.Proofs.PathStore
 import LianVerif.Properties.C19
+import LianVerif.Model.Determinism
+import LianVerif.Proofs.Determinism
+import LianVerif.Properties.C14
